@@ -1282,7 +1282,10 @@ def loop_fragment_cases(rnd, n):
                 if nqb <= nq:
                     pre = rnd.choice(["", "", "inv @ ", "pow(2) @ "])
                     args = "(%s)" % ", ".join(rnd.choice(PEXPR) for _ in range(npar)) if npar else ""
-                    L.append("%s%s%s %s;" % (pre, name, args, ", ".join("q[%d]" % x for x in rnd.sample(range(nq), nqb))))
+                    if nqb and nq % nqb == 0 and rnd.random() < 0.3:
+                        L.append("%s%s%s q;" % (pre, name, args))          # broadcast over the whole register in groups of the arity
+                    else:
+                        L.append("%s%s%s %s;" % (pre, name, args, ", ".join("q[%d]" % x for x in rnd.sample(range(nq), nqb))))
             else:
                 L.append(op(None, 0, -1))
         if rnd.random() < 0.25:
